@@ -159,6 +159,7 @@ func c19Script(r *rand.Rand, x *model.XSeg, others []segment.Segment) []c19Op {
 			for {
 				e, err := it.Next()
 				if err != nil {
+					it.Next() // polling again after an error must not panic
 					return "", false, err
 				}
 				if e == nil {
@@ -202,6 +203,10 @@ func c19Script(r *rand.Rand, x *model.XSeg, others []segment.Segment) []c19Op {
 						p, err = it.Next()
 					}
 					if err != nil {
+						// a caller that polls the same iterator again after an error must get an error or
+						// the end, never a panic (a panic here escapes to the oracle as a violation)
+						it.Next()
+						it.Next()
 						return "", false, err
 					}
 					if p == nil {
